@@ -144,9 +144,84 @@ func runC10History(r *rand.Rand, h *c01hist, report func(key, what string)) (key
 			}
 		}
 	}
+	// iterators that straddle a commit: opened on a cached past height, read half way, left open while the next block is
+	// committed (which recycles the oldest slot of the cache), then read to the end
+	type straddle struct {
+		hh       int64
+		s        int
+		asc      bool
+		it       types.Iterator
+		got      []kvmodel.KV
+		onSwitch bool
+	}
+	step := func(st *straddle, n int) error {
+		p, stk := ev.Try(func() {
+			for j := 0; (n < 0 || j < n) && st.it.Valid(); j++ {
+				st.got = append(st.got, kvmodel.KV{K: append([]byte{}, st.it.Key()...), V: append([]byte{}, st.it.Value()...)})
+				if len(st.got) > 1<<16 {
+					panic("iterator yields more elements than the store can hold")
+				}
+				st.it.Next()
+			}
+		})
+		if p != nil {
+			return fmt.Errorf("panic: %v\n%s", p, stk)
+		}
+		return nil
+	}
 	for i, blk := range blocks {
+		var open []*straddle
+		if ref.Latest >= 2 && r.Intn(2) == 0 {
+			for _, dist := range []int64{11, 10, 1 + r.Int63n(11)} {
+				hh := ref.Latest - dist
+				if hh < 1 {
+					continue
+				}
+				for _, onSwitch := range []bool{false, true} {
+					n := off
+					if onSwitch {
+						n = on
+					}
+					lz, err := n.ms.LoadLazyVersion(hh)
+					if err != nil {
+						continue
+					}
+					sidx, asc := r.Intn(cfg.NStores), r.Intn(2) == 0
+					if onSwitch && len(open) > 0 {
+						sidx, asc = open[len(open)-1].s, open[len(open)-1].asc
+					}
+					st := n.store((*lz).(types.MultiStore), sidx)
+					var it types.Iterator
+					if asc {
+						it, _ = st.Iterator(nil, nil)
+					} else {
+						it, _ = st.ReverseIterator(nil, nil)
+					}
+					sd := &straddle{hh: hh, s: sidx, asc: asc, it: it, onSwitch: onSwitch}
+					if err := step(sd, len(ref.Ver[hh][sidx])/2); err != nil {
+						rep("straddle/panic-before-commit", err.Error())
+						continue
+					}
+					open = append(open, sd)
+				}
+			}
+		}
 		ca := off.apply(blk)
 		cb := on.apply(blk)
+		for _, sd := range open {
+			err := step(sd, -1)
+			_, _ = ev.Try(func() { sd.it.Close() })
+			h.counts["iterators_read_across_a_commit"]++
+			who := map[bool]string{false: "cache off", true: "cache on"}[sd.onSwitch]
+			if err != nil {
+				rep("straddle/panic/"+who, fmt.Sprintf("height %d s%d: %v", sd.hh, sd.s, err))
+				continue
+			}
+			want := ref.Ver[sd.hh][sd.s].Range(nil, nil, sd.asc)
+			if !kvmodel.EqualKVs(sd.got, want) {
+				rep("straddle/"+who+"/"+classifyIter(sd.got, want), fmt.Sprintf("iterator over s%d at height %d (asc=%v) opened when the latest height was %d, read half way, finished after block %d was committed: got %s, that height holds %s", sd.s, sd.hh, sd.asc, ref.Latest, ref.Latest+1, kvmodel.FmtKVs(trunc(sd.got)), kvmodel.FmtKVs(trunc(want))))
+			}
+		}
 		ref.applyOps(blk)
 		ref.commit(ca, off)
 		if !cidEq(ca, cb) {
@@ -169,7 +244,7 @@ func runC10History(r *rand.Rand, h *c01hist, report func(key, what string)) (key
 
 func checkC10(r *ev.Run) {
 	n := r.N(400, 30000)
-	r.Rule("history = two rootmulti stores (state cache off / on, capacity 12) fed the same 6-35 generated blocks over 1-3 IAVL substores; after every ~3rd commit every height in the cache window (and a sample of older ones) is opened lazily on both and compared: Get (nil-ness included) and Has for 8 hot keys (present and absent), forward and reverse iteration over the full range and 5 generated ranges per store whose bounds are nil / present / absent keys. Mismatches are keyed by operation, range shape and symptom. Non-trivial = a non-empty iteration was compared at a height inside the cache window; distinct = block-script digest.")
+	r.Rule("history = two rootmulti stores (state cache off / on, capacity 12) fed the same 6-35 generated blocks over 1-3 IAVL substores; after every ~3rd commit every height in the cache window (and a sample of older ones) is opened lazily on both and compared: Get (nil-ness included) and Has for 8 hot keys (present and absent), forward and reverse iteration over the full range and 5 generated ranges per store whose bounds are nil / present / absent keys. Before every other block, full-range iterators are opened on both twins at the oldest cached height, the next one and a random cached height, read half way, left open while the block is committed, then read to the end: the sequence must be that height's content. Mismatches are keyed by operation, range shape and symptom. Non-trivial = a non-empty iteration was compared at a height inside the cache window; distinct = block-script digest.")
 	ev.ForEach(n, workers(), func(i int) {
 		if r.Only != "" && r.Only != "*" && r.Only != fmt.Sprint(i) {
 			return
